@@ -44,10 +44,13 @@ again, the mode sequences written again, the goroutines that Send the repaint / 
 callback's message), and then the message goes on to Update (`callback`).  The steps `exRel*` /
 `exRes*` are lifecycle labels, each enabled only at its phase; `execReleaseFails` /
 `execRestoreFails` are the error arms.  `ignoreSignals` is therefore DYNAMIC: set by `exRelCancel`,
-cleared by `exResReader` / `execRestoreFails` (whatever the configuration said: a WithoutSignals
-program obeys signals after its first Exec).  Two history variables that no guard reads say how
-the flag got its value: `releaseStuck` (a release was not followed by a restore: the release
-failed, or the command panicked) and `restoredOnce` (RestoreTerminal has set the flag).
+put back by `exResReader` / `execRestoreFails` to what the program was configured with
+(`withoutSignals`, the option WithoutSignals, fixed: `if !p.withoutSignals { store 0 }`).  Before the
+repair RestoreTerminal stored 0 unconditionally, and a WithoutSignals program obeyed SIGINT /
+SIGTERM again after its first Exec: that defect was found with this model (the old step is kept as
+`stepOld` in `Tea/Proofs/LifecycleExec.lean`, with the run that shows it in `Tea/Props/C18.lean`).
+One history variable that no guard reads: `releaseStuck` (a release was not followed by a restore:
+the release failed, or the command panicked - signals stay ignored until the next RestoreTerminal).
 
 THE RENDERER'S HALT.  `listen = notStarted | idle | flushing | stopped` is the listen
 goroutine together with the flag `listening` (`listening = true` iff `idle` or `flushing`).
@@ -163,7 +166,8 @@ structure Caller where
 
 structure St where
   cancelable : Bool                 -- the input reader's Cancel() works (file input) or not (fallback)
-  ignoreSignals : Bool := false     -- dynamic: set by ReleaseTerminal, cleared by RestoreTerminal
+  ignoreSignals : Bool := false     -- dynamic: set by ReleaseTerminal, put back by RestoreTerminal
+  withoutSignals : Bool := false    -- the option WithoutSignals: what RestoreTerminal puts back; never changed
   withSignalHandler : Bool := true  -- the configuration, read by the start-up steps
   withResize : Bool := true
   withInitCmd : Bool := false
@@ -190,7 +194,6 @@ structure St where
   restores : Nat := 0               -- how many times restoreTerminalState ran
   leakedReaders : Nat := 0          -- read loops that outlived a release: never waited for, only counted
   releaseStuck : Bool := false      -- history: a release was not followed by a restore (release failed / command panicked)
-  restoredOnce : Bool := false      -- history: RestoreTerminal has set `ignoreSignals`
   deriving Repr
 
 inductive Label where
@@ -317,9 +320,9 @@ def step (s : St) : Label → Option St
   | .execCmdReturns => if s.el = .execCmd then some { s with el := .execRestore .reader } else none
   | .execCmdPanics =>        -- recovered by Run's deferred handler; nobody restores `ignoreSignals`
     if s.el = .execCmd then some { s with el := .exited .panic, releaseStuck := true } else none
-  | .execRestoreFails =>     -- RestoreTerminal failed: signals obeyed again, nothing restarted, the callback's message
+  | .execRestoreFails =>     -- RestoreTerminal failed: the flag is put back, nothing restarted, the callback's message
     if s.el = .execRestore .reader then
-      some { s with ignoreSignals := false, releaseStuck := false, restoredOnce := true,
+      some { s with ignoreSignals := s.withoutSignals, releaseStuck := false,
                     senders := s.senders ++ [{ kind := .user, pc := .blocked }], el := .callback }
     else none
   | .execReleaseFails =>     -- restoreTerminalState failed: signals stay ignored, reader / renderer as they are
@@ -351,14 +354,14 @@ def step (s : St) : Label → Option St
     if s.el = .execRelease .restore then
       some { s with restores := s.restores + 1, modesDirty := false, el := .execCmd }
     else none
-  | .exResReader =>          -- signals obeyed again; a NEW read loop (an old one still running is leaked)
+  | .exResReader =>          -- `if !p.withoutSignals { ignoreSignals = 0 }`; a NEW read loop (an old one still running is leaked)
     if s.el = .execRestore .reader then
       if s.withInput = true then
-        some { s with ignoreSignals := false, releaseStuck := false, restoredOnce := true,
+        some { s with ignoreSignals := s.withoutSignals, releaseStuck := false,
                       leakedReaders := if s.reader = .absent ∨ s.reader = .exited then s.leakedReaders
                                        else s.leakedReaders + 1,
                       reader := .reading, readerCancelRequested := false, el := .execRestore .renderer }
-      else some { s with ignoreSignals := false, releaseStuck := false, restoredOnce := true,
+      else some { s with ignoreSignals := s.withoutSignals, releaseStuck := false,
                          el := .execRestore .renderer }
     else none
   | .exResRenderer =>        -- the mode sequences again; `start()`: nothing on a running renderer
@@ -497,7 +500,7 @@ structure Config where
 
 /-- Run has just been entered: nothing has been spawned, created or started -/
 def init0 (c : Config) : St :=
-  { cancelable := c.cancelable, ignoreSignals := c.ignoreSignals,
+  { cancelable := c.cancelable, ignoreSignals := c.ignoreSignals, withoutSignals := c.ignoreSignals,
     withSignalHandler := c.withSignalHandler, withResize := c.withResize,
     withInitCmd := c.withInitCmd, withInput := c.withInput,
     el := .notStarted, dispAlive := false,
@@ -510,7 +513,7 @@ def init0 (c : Config) : St :=
 /-- the event loop begins and nothing has struck during the start-up: the handlers are running,
 the renderer is listening, the start-up mode sequences have been written -/
 def init (c : Config) : St :=
-  { cancelable := c.cancelable, ignoreSignals := c.ignoreSignals,
+  { cancelable := c.cancelable, ignoreSignals := c.ignoreSignals, withoutSignals := c.ignoreSignals,
     withSignalHandler := c.withSignalHandler, withResize := c.withResize,
     withInitCmd := c.withInitCmd, withInput := c.withInput,
     el := .select, dispAlive := true,
